@@ -16,10 +16,12 @@ NoD == [m |-> 0, s |-> -1]                 \* absent number
 
 \* row: [day, payee, amt (signed effect on the statement: credit > 0, debit < 0), rate |-> [r, inv] or NoRate, sec (unsigned secondary amount or NoD), note]
 \* cfg: [atype, cols ("amount"|"creditdebit"), layout, delim, skip, datefmt, order ("old_to_new"|"new_to_old"), balance (BOOLEAN),
-\*       conv ("none"|"extract_pos"|"compute_pos"|"extract_pop"|"compute_pop"|"disabled"), ruleconv ("none"|"disabled")]
+\*       conv ("none"|"extract_pos"|"compute_pos"|"extract_pop"|"compute_pop"|"disabled"), ruleconv ("none"|"disabled"|"commodity")]
 NoRate == [r |-> NoD, inv |-> NoD]
 Primary == "USD"
-Secondary == "EUR"
+StatementSecondary == "EUR"          \* what the statement's secondary-commodity column shows
+RuleSecondary == "JPY"                \* what a rule's conversion.commodity says
+SecondaryOf(cfg) == IF cfg.ruleconv = "commodity" THEN RuleSecondary ELSE StatementSecondary
 Account == "Assets:Src"
 
 \* ---------------------------------------------------------------- what the statement file shows for a row
@@ -29,7 +31,9 @@ ShownAmount(cfg, row) == IF cfg.atype = "liability" THEN DecNeg(row.amt) ELSE ro
 
 \* ---------------------------------------------------------------- expected transaction of a row
 \* cfg.ruleconv: conversion given by a rewrite rule that matches every row ("none" = no such rule, "disabled" = the
-\* rule switches conversion off); a rule's conversion takes precedence over the account-wide default (cfg.conv)
+\* rule switches conversion off, "commodity" = the rule restates the conversion and names the secondary commodity
+\* itself, which overrides whatever the statement's secondary-commodity column says); a rule's conversion takes
+\* precedence over the account-wide default (cfg.conv)
 Converts(cfg, row) == cfg.ruleconv # "disabled" /\ cfg.conv \notin {"none", "disabled"} /\ row.rate # NoRate
 PriceOfPrimary(cfg) == cfg.conv \in {"extract_pop", "compute_pop"}
 \* the secondary amount: extracted from the row, or computed from the rate
@@ -44,12 +48,12 @@ NoCost == [c |-> NoneS, v |-> NoD]
 SrcPosting(cfg, row, running) ==
   [account |-> Account, amt |-> row.amt, c |-> Primary,
    \* price_of_primary: the rate prices the primary commodity, so it sits on the primary posting
-   cost |-> IF Converts(cfg, row) /\ PriceOfPrimary(cfg) THEN [c |-> Secondary, v |-> row.rate.r] ELSE NoCost,
+   cost |-> IF Converts(cfg, row) /\ PriceOfPrimary(cfg) THEN [c |-> SecondaryOf(cfg), v |-> row.rate.r] ELSE NoCost,
    balance |-> IF cfg.balance THEN running ELSE NoD]
 DestPosting(cfg, row) ==
   IF Converts(cfg, row)
   THEN [account |-> IF DecSign(row.amt) > 0 THEN "Income:Unknown" ELSE "Expenses:Unknown",
-        amt |-> Opposite(Transferred(cfg, row), row.amt), c |-> Secondary,
+        amt |-> Opposite(Transferred(cfg, row), row.amt), c |-> SecondaryOf(cfg),
         cost |-> IF PriceOfPrimary(cfg) THEN NoCost ELSE [c |-> Primary, v |-> row.rate.r],
         balance |-> NoD]
   ELSE [account |-> IF DecSign(row.amt) > 0 THEN "Income:Unknown" ELSE "Expenses:Unknown",
